@@ -998,6 +998,39 @@ pub fn rich_observation(s: &State) -> u64 {
     obs::hash64(&acc)
 }
 
+/// C17/C18: par_iter() visits exactly the nodes of iter() (same references, same order),
+/// in dedicated rayon pools of 1, 2 and 16 threads.
+#[cfg(feature = "it-par")]
+pub fn c17_par(s: &State) -> Vec<Failure> {
+    use rayon::prelude::*;
+    use std::sync::OnceLock;
+    static POOLS: OnceLock<Vec<rayon::ThreadPool>> = OnceLock::new();
+    let pools = POOLS.get_or_init(|| {
+        [1usize, 2, 16]
+            .iter()
+            .map(|&n| rayon::ThreadPoolBuilder::new().num_threads(n).build().expect("rayon pool"))
+            .collect()
+    });
+    let mut out = Vec::new();
+    let seq: Vec<usize> = s.arena.iter().map(|n| n as *const _ as usize).collect();
+    for (i, pool) in pools.iter().enumerate() {
+        let r = guarded(|| {
+            let par: Vec<usize> = pool.install(|| s.arena.par_iter().map(|n| n as *const _ as usize).collect());
+            let cnt = pool.install(|| s.arena.par_iter().count());
+            let live = pool.install(|| s.arena.par_iter().filter(|n| !n.is_removed()).count());
+            (par, cnt, live)
+        });
+        let live_seq = s.arena.iter().filter(|n| !n.is_removed()).count();
+        match r {
+            Ok((par, cnt, live)) if par == seq && cnt == seq.len() && live == live_seq => {}
+            Ok((par, cnt, _)) => out.push(fail(C17 | C18, "par_iter", false, "par_iter", "-", "differs-from-iter",
+                format!("par_iter() in a pool of {} thread(s) visits {} nodes ({} by count()), iter() visits {}; same references in the same order: {}", [1, 2, 16][i], par.len(), cnt, seq.len(), par == seq))),
+            Err(m) => out.push(fail(C17 | C18, "par_iter", false, "par_iter", "-", "panicked", format!("par_iter panicked: {m}"))),
+        }
+    }
+    out
+}
+
 pub struct StateJudgeCounters {
     pub pulls: u64,
     pub product_steps: u64,
@@ -1050,6 +1083,10 @@ pub fn judge_state(
     }
     if t & C16 != 0 {
         out.extend(c16(s, &mut ctr.lockstep, profile, n_max, a_max));
+    }
+    #[cfg(feature = "it-par")]
+    if t & (C17 | C18) != 0 {
+        out.extend(c17_par(s));
     }
     let _ = (Outcome::Unit, ops::Op::NewNode);
     out
